@@ -63,6 +63,17 @@ def _wrap_linalg() -> None:
         setattr(torch.linalg, n, mk(real))
 
 
+def _teq(a: torch.Tensor, b: torch.Tensor) -> bool:
+    """torch.equal that treats NaN as equal to NaN (a numerically diverged
+    run may carry NaNs; NaN != NaN must not read as "changed")."""
+    if a.shape != b.shape or a.dtype != b.dtype:
+        return False
+    if not a.is_floating_point():
+        return bool(torch.equal(a, b))
+    return bool(torch.equal(torch.nan_to_num(a, nan=12345.0),
+                            torch.nan_to_num(b, nan=12345.0)))
+
+
 def _shifted(name: str, v: Any, how: str) -> Any:
     """A different, legal constant for constructor argument `name`."""
     if name == 'kl_clip':
@@ -424,7 +435,7 @@ class RankEnv:
                     if want is None:
                         continue
                     if got is None or got.dtype != want.dtype or \
-                            got.shape != want.shape or not torch.equal(
+                            got.shape != want.shape or not _teq(
                                 got, want):
                         self.bad('C09.factor_not_restored', layer=name,
                                  factor=f)
@@ -536,7 +547,7 @@ class RankEnv:
                 if self.twin is not None:
                     out2 = self._fwd_bwd(self.twin, it, vr, micro, acc,
                                          op.get('zero', False))
-                    if not torch.equal(out, out2):
+                    if not _teq(out, out2):
                         self.bad('C10.twin_output_differs', it=it)
                     if scaling:
                         with torch.no_grad():
@@ -566,7 +577,7 @@ class RankEnv:
                                       self.twin.named_parameters()):
                 if (p.grad is None) != (q.grad is None) or (
                         p.grad is not None
-                        and not torch.equal(p.grad, q.grad)):
+                        and not _teq(p.grad, q.grad)):
                     self.bad('C10.twin_grad_differs', param=n, it=it)
             self.sim.probe('twin_compared')
         params = [p for p in model.parameters() if p.grad is not None]
@@ -657,8 +668,14 @@ class RankEnv:
             if id(p) in reg_params:
                 continue
             b = before_other[n]
+            # (NaN-safe: a diverged run may carry NaNs in these gradients,
+            # and NaN != NaN would read as "changed")
             if (b is None) != (p.grad is None) or (
-                    b is not None and not torch.equal(b, p.grad)):
+                    b is not None and not (
+                        b.shape == p.grad.shape and b.dtype == p.grad.dtype
+                        and torch.equal(
+                            torch.nan_to_num(b, nan=12345.0),
+                            torch.nan_to_num(p.grad, nan=12345.0)))):
                 self.bad('C10.unregistered_grad_changed', param=n, it=it)
         for n, p in model.named_parameters():
             if n in before_meta:
@@ -774,7 +791,7 @@ class RankEnv:
                 for f in ('A', 'G'):
                     a, b = sd0[n][f], sd1[n][f]
                     if (a is None) != (b is None) or (
-                            a is not None and not torch.equal(a, b)):
+                            a is not None and not _teq(a, b)):
                         self.bad('C04.factor_changed_by_eval', layer=n,
                                  factor=f)
         me = self.rank
